@@ -101,4 +101,11 @@ theorem fact_save_shape :
     Facts.kvSaveFileCalls = ["atomicfile.WriteFile(kv.path, out, 0600)"] := by
   decide
 
+/-! ### T1: functions the model transcribes, statement by statement (white space collapsed) -/
+
+def expected_openOrCreateKV : List String := ["bs, err := os.ReadFile(path)", "if errors.Is(err, fs.ErrNotExist) { return newKV(path, kek) } else if err != nil { return nil, err }", "var wrapped wrapped", "if err := json.Unmarshal(bs, &wrapped); err != nil { return nil, fmt.Errorf(\"loading encrypted database: %w\", err) }", "if wrapped.Version != 1 { return nil, fmt.Errorf(\"unsupported database version %d\", err) }", "reader := keyset.NewBinaryReader(bytes.NewReader(wrapped.DEK))", "dek, err := keyset.ReadWithAssociatedData(reader, kek, aeadContextDEK(wrapped.Version))", "if err != nil { return nil, fmt.Errorf(\"decrypting DEK: %w\", err) }", "dekCipher, err := aead.New(dek)", "if err != nil { return nil, fmt.Errorf(\"constructing cipher from DEK: %w\", err) }", "clear, err := dekCipher.Decrypt(wrapped.DB, aeadContextDB(wrapped.Version))", "if err != nil { return nil, fmt.Errorf(\"decrypting database: %w\", err) }", "var persist persist", "if err := json.Unmarshal(clear, &persist); err != nil { return nil, fmt.Errorf(\"unmarshaling decrypted database: %w\", err) }", "ret := &kv{ path: path, secrets: persist.Secrets, dek: dek, dekCipher: dekCipher, dekRaw: wrapped.DEK, kekCipher: kek, gen: 1, }", "return ret, nil"]
+
+/-- openOrCreateKV: read the file (none: create); the wrapper, its version, the data key unwrapped by the key-encryption key with the versioned associated data, the database decrypted with it, decoded - any failure is an error -/
+theorem fact_openOrCreateKV_as_transcribed : Facts.body_openOrCreateKV = expected_openOrCreateKV := by rfl
+
 end Setec.C05
